@@ -282,6 +282,9 @@ func (s *Service) Handle(ctx context.Context, stream p2p.Stream, remoteMultiaddr
 	if err != nil {
 		return nil, aurora.ErrInvalidNodeMode
 	}
+	if ack.Address == nil {
+		return nil, ErrInvalidAck
+	}
 	overlay := boson.NewAddress(ack.Address.Overlay)
 
 	if s.picker != nil {
@@ -332,6 +335,9 @@ func buildFullMA(addr ma.Multiaddr, peerID libp2ppeer.ID) (ma.Multiaddr, error) 
 }
 
 func (s *Service) parseCheckAck(ack *pb.Ack) (*aurora.Address, error) {
+	if ack == nil || ack.Address == nil {
+		return nil, ErrInvalidAck
+	}
 	bzzAddress, err := aurora.ParseAddress(ack.Address.Underlay, ack.Address.Overlay, ack.Address.Signature, s.networkID)
 	if err != nil {
 		return nil, ErrInvalidAck
